@@ -143,6 +143,13 @@ def _capacity(kind, d, nb):
     return nb * (2 * _BLOB_W + 1) ** d
 
 
+def _usable(kind, d, nb):
+    """Largest n the strategies draw for a layout: half (uniform) / 60 % (blobs) of the sites,
+    so that unique-list generation never struggles."""
+    cap = _capacity(kind, d, nb)
+    return cap // 2 if kind == "uniform" else (6 * cap) // 10
+
+
 @st.composite
 def dataset_shape(draw, max_n=40, max_d=4, min_n=1, dtypes=DTYPES, layouts=LAYOUTS,
                   layout_kinds=("uniform", "blobs")):
@@ -157,8 +164,16 @@ def dataset_shape(draw, max_n=40, max_d=4, min_n=1, dtypes=DTYPES, layouts=LAYOU
     # float dtypes are listed twice: they carry the jitter / scale dimensions
     dtype = draw(st.sampled_from(list(dtypes) + [t for t in dtypes if t in FLOAT_DTYPES]))
     nb = draw(st.integers(2, min(5, 5 ** d))) if kind == "blobs" else 0
-    cap = _capacity(kind, d, nb)
-    hi = max(min_n, min(max_n, cap // 2 if kind == "uniform" else (6 * cap) // 10))
+    # a caller-imposed minimum size may not fit a low-dimensional layout: widen it deterministically
+    while _usable(kind, d, nb) < min_n and d < max_d:
+        d += 1
+    if _usable(kind, d, nb) < min_n:
+        kind, nb = "uniform", 0
+        while _usable(kind, d, nb) < min_n and d > 1:
+            d -= 1          # the 1-D cube is the roomiest small layout (121 sites)
+    if _usable(kind, d, nb) < min_n:
+        raise ValueError("min_n=%d does not fit any layout with max_d=%d" % (min_n, max_d))
+    hi = max(min_n, min(max_n, _usable(kind, d, nb)))
     # size classes keep tiny sets (where every index is special) and full-size sets both frequent
     cls = draw(st.sampled_from(["small", "any", "large", "tiny", "small", "any", "large"]))
     if cls == "tiny":
